@@ -9,6 +9,17 @@ The wrapped service is the strict scripted service (`inner_call c k tag=c ready=
 caller arriving meanwhile is turned away before `call` (`result c notready`) and the generator lets fresh callers
 retry later. `manual dropsvc`: every handle of the rate limiter is dropped (later arrivals are `noop`), the call
 futures made so far — polled or not — live on.
+
+Construction paths (header): `via=per_second n=` / `via=per_minute n=` / `via=burst rate= burst=` / `via=default`
+(presets and the builder's own defaults; `limit= period= timeout= kind=` with them are builder methods called after
+the preset), `name=`, `listen=1` (the three listeners registered), `tick=us`. `_cfg` below resolves the header to the
+effective configuration from the crate's documentation, independently of the Lean model.
+Services and handles: `arrive c svc=k` (service k is built from the same layer value when first used; `lclone=1`: from
+a clone of the layer), `h=0` (the service value itself, reused), `h=j` (a kept clone, reused). Every service has its
+own window state; the monitors are applied per service.
+`manual ready script=pe…`: scripted answers of the wrapped service's `poll_ready` (pending / error).
+Very long idle stretches ("huge" cases: period of 1–3 ticks, `adv` of k·2^32 periods and neighbours, 2^31 periods,
+2^32 ticks — 49.7 days at 1 ms — measured from the limiter's last try_acquire).
 """
 from gen.util import kvs, tparse, pick_outcome
 from gen.bulkhead import first_visited_at_or_after, _timeline
@@ -16,12 +27,28 @@ from gen.bulkhead import first_visited_at_or_after, _timeline
 GRID = 125
 
 
-def _timeout_choices(rng, P, grid):
+def _timeout_choices(rng, P, G):
     cand = [0, 0, 1, P // 2, P - 1, P, P, P + 1, P + P // 2, 2 * P, 2 * P + 1, 3 * P, rng.randint(0, 3 * P)]
     t = max(0, rng.choice(cand))
-    if grid and rng.random() < 0.7:
-        t = (t // GRID) * GRID
+    if G > 1 and rng.random() < 0.7:
+        t = (t // G) * G
     return t
+
+
+TWO32 = 2 ** 32
+COUNTER_PERIODS = [1000, 1000, 2000, 4000]     # whole seconds: every instant on the 125 ms grid is a dyadic fraction of them
+
+
+def _last_try_time(ops):
+    """instant of the last operation that can have made a try_acquire (a poll / settle), as far as the generator knows"""
+    now, last = 0, 0
+    for o in ops:
+        w = o.split()
+        if w[0] == "adv":
+            now += int(w[1])
+        elif w[0] in ("poll", "settle"):
+            last = now
+    return last
 
 
 def gen(rng, tier):
@@ -29,32 +56,102 @@ def gen(rng, tier):
     L = rng.choice([1, 1, 2, 2, 3, 4])
     grid = kind == "counter"
     if grid:
-        P = rng.choice([1000, 1000, 2000, 4000])
+        P = rng.choice(COUNTER_PERIODS)
     else:
         P = rng.choice([10, 50, 100, 100, rng.randint(1, 200)])
-    T = _timeout_choices(rng, P, grid)
-    header = "ratelimiter kind=%s limit=%d period=%d timeout=%d" % (kind, L, P, T)
+    T = _timeout_choices(rng, P, GRID if grid else 1)
+    huge = us = False
+    how = rng.random()
+    if how < 0.12:
+        # very long idle stretches: a period of a few ticks, so that 2^32 periods (and several of them) fit the clock.
+        # Sliding counter: period 1 or 2 — the elapsed ratio is then 0 or exactly 1/2, every f64 operation exact.
+        huge = True
+        P = rng.choice([1, 1, 2]) if grid else rng.choice([1, 1, 2, 3])
+        T = rng.choice([0, 1, P, P + 1, 2 * P, 3 * P, rng.randint(0, 3 * P)])
+        if rng.random() < 0.25:
+            us, T = True, 0      # 1 tick = 1 µs; tokio's timers have millisecond granularity, so nobody may sleep
+        hdr = "kind=%s limit=%d period=%d timeout=%d" % (kind, L, P, T) + (" tick=us" if us else "")
+    elif how < 0.36:
+        # preset constructors / the builder's defaults, optionally customised afterwards
+        v = rng.choice(["per_second", "per_second", "per_minute", "burst", "burst", "default"])
+        if v == "per_second":
+            kind, P, T, hdr = "fixed", 1000, 100, "via=per_second n=%d" % L
+        elif v == "per_minute":
+            kind, P, T, hdr = "fixed", 60000, 1000, "via=per_minute n=%d" % L
+        elif v == "burst":
+            b = rng.randint(0, L)
+            kind, P, T, hdr = "counter", 1000, 100, "via=burst rate=%d burst=%d" % (L - b, b)
+        else:
+            kind, P, T, hdr = "fixed", 1000, 100, "via=default limit=%d" % L      # defaults: 50 / 1 s / 100 ms / fixed
+        if v in ("per_second", "per_minute") and rng.random() < 0.2:
+            hdr = "via=%s n=%d limit=%d" % (v, rng.choice([1, 5, 50, 1000]), L)
+        over = set(rng.sample(["timeout", "kind", "period"], rng.randint(1, 2))) if rng.random() < 0.5 else set()
+        if "kind" in over:
+            kind = rng.choice(["fixed", "log", "counter"])
+        if kind == "counter" and P not in COUNTER_PERIODS:
+            over.add("period")
+        if "period" in over:
+            P = rng.choice(COUNTER_PERIODS) if kind == "counter" else rng.choice([10, 50, 100, 1000, rng.randint(1, 200)])
+        grid = kind == "counter"
+        if "timeout" in over:
+            T = _timeout_choices(rng, P, GRID if grid else 1)
+        for k, val in (("kind", kind), ("period", P), ("timeout", T)):
+            if k in over:
+                hdr += " %s=%s" % (k, val)
+    else:
+        hdr = "kind=%s limit=%d period=%d timeout=%d" % (kind, L, P, T)
+    if rng.random() < 0.3:
+        hdr += " name=rl-%d" % rng.randint(0, 9)
+    if rng.random() < 0.3:
+        hdr += " listen=1"
+    header = "ratelimiter " + hdr
+    G = GRID if grid and not huge else 1          # every instant of the case is a multiple of G
+    # several services built from the one layer value; kept / reused handles
+    nsvc = rng.choice([2, 2, 3]) if rng.random() < 0.25 else 1
+    handles = rng.random() < 0.4
+    built = {0}
+    long_left = 2                                  # very long advances still allowed in this case
     ops = []
     now = 0
     marks = [P, 2 * P]           # interesting instants: window boundaries, wake-ups, timeouts
+    if 0 < T < P:
+        marks.extend([P - T, 2 * P - T])     # the last instant from which the end of the window is within the timeout
     arrived = []
     nxt = 1
     busy_until = 0               # the wrapped service is not ready before this instant (generator's own bookkeeping)
     gone = False                 # `manual dropsvc` has been issued
 
     def q(d):
-        return (d // GRID) * GRID if grid else d
+        return (d // G) * G
 
-    def arrive(poll_p=0.85):
+    def pick_svc():
+        return rng.choice([0, 0] + list(range(1, nsvc)))
+
+    def how_called(k):
+        """`svc=` / `lclone=` / `h=` words of an arrival at service k"""
+        extra = ""
+        if k:
+            extra += " svc=%d" % k
+            if k not in built:
+                built.add(k)
+                marks.extend([now + P, now + 2 * P])       # its first window / bucket starts now
+                if rng.random() < 0.3:
+                    extra += " lclone=1"
+        if handles and rng.random() < 0.7:
+            extra += " h=%d" % rng.choice([0, 0, 1, 1, 2])
+        return extra
+
+    def arrive(poll_p=0.85, svc=None):
         nonlocal nxt
         c = nxt
         nxt += 1
-        lat = q(rng.choice([0, 0, 0, 1, 5, P // 2, P, rng.randint(0, 2 * P)]))
-        ops.append("arrive %d inner=%d:%s" % (c, lat, pick_outcome(rng, 7, 2, 1, 1)))
+        lat = 0 if us else q(rng.choice([0, 0, 0, 1, 5, P // 2, P, rng.randint(0, 2 * P)]))
+        k = pick_svc() if svc is None else svc
+        ops.append("arrive %d inner=%d:%s%s" % (c, lat, pick_outcome(rng, 7, 2, 1, 1), how_called(k)))
         arrived.append(c)
         if rng.random() < poll_p:
             ops.append("poll %d" % c)
-            marks.extend([now + P, now + T, now + lat, now + 2 * P])
+            marks.extend([now + P, now + T, now + lat, now + 2 * P] + ([now + P - T] if 0 < T < P else []))
         return c
 
     def busy(d):
@@ -64,43 +161,60 @@ def gen(rng, tier):
         busy_until = now + d
         marks.extend([now + d, now + d + P])
 
+    def long_idle():
+        """an idle stretch of about k·2^32 periods (the count of elapsed periods as a 32-bit number wraps to 0 / 1 /
+        2^32-1), 2^31 periods, or 2^32 ticks, measured from the last try_acquire the generator knows of"""
+        nonlocal long_left
+        long_left -= 1
+        kmax = max(1, 4 // P)
+        M = rng.choice([TWO32 * P * rng.randint(1, kmax)] * 5 + [TWO32 * P // 2, TWO32, TWO32 * P - P])
+        delta = rng.choice([0, 0, 0, 1, P - 1, P, P + 1, 2 * P - 1, 2 * P, 2 * P + 1, -1, rng.randint(0, 3 * P)])
+        d = M + delta
+        if rng.random() < 0.75:
+            d -= now - _last_try_time(ops)
+        return max(0, d)
+
     def busy_episode():
         # the wrapped service stays busy across k window boundaries while callers keep arriving (they are turned
         # away: their polls are `noop`); when it is ready again fresh callers retry
         nonlocal now
         k = rng.choice([1, 2, 2, 3])
         if rng.random() < 0.5 and nxt < 40:
+            k0 = pick_svc()
             for _ in range(rng.choice([1, L])):
-                arrive(1.0)
+                arrive(1.0, k0)
         busy(k * P + rng.choice([0, 1, P // 2, P // 2, P - 1]))
         for w in range(k + 1):
             if nxt < 40:
+                k0 = pick_svc()
                 for _ in range(rng.choice([1, L, L, L + 1])):
-                    arrive(0.9)
+                    arrive(0.9, k0)
             if now >= busy_until:
                 break
             d = q(rng.choice([P, P, P + 1, max(1, busy_until - now)]))
-            d = min(d, q(busy_until - now + rng.choice([0, 0, 1 if not grid else GRID])))
+            d = min(d, q(busy_until - now + rng.choice([0, 0, G])))
             ops.append("adv %d" % d)
             now += d
         if now < busy_until and rng.random() < 0.8:
-            d = q(busy_until - now + (GRID - 1 if grid else 0))
+            d = q(busy_until - now + G - 1)
             ops.append("adv %d" % d)
             now += d
         if rng.random() < 0.8:
             ops.append("settle")
         if nxt < 40:
+            k0 = pick_svc()
             for _ in range(rng.choice([1, L, L + 1])):
-                arrive(0.9)
+                arrive(0.9, k0)
 
     def dropsvc_episode():
         # a batch of calls is made, every handle of the limiter goes away, only then are the responses driven
         nonlocal gone, now
         n = rng.choice([L, L + 1, L + 1, L + 2, 2 * L + 1])
         ids = []
+        k0 = pick_svc()
         for _ in range(min(n, 7)):
             if nxt < 40:
-                ids.append(arrive(rng.choice([0.0, 0.0, 0.3])))
+                ids.append(arrive(rng.choice([0.0, 0.0, 0.3]), k0))
         ops.append("manual dropsvc")
         gone = True
         if rng.random() < 0.3:
@@ -114,21 +228,22 @@ def gen(rng, tier):
     # (the first window / bucket starts at construction, a sliding log's span starts at the first admission)
     if rng.random() < 0.35:
         x = q(rng.choice([1, P // 2, P // 2, P - 1, rng.randint(1, max(1, P - 1))]))
-        if grid and x == 0:
-            x = GRID
+        if x == 0:
+            x = G
         ops.append("adv %d" % x)
         now += x
         marks.append(now + P)
         if rng.random() < 0.7:
+            k0 = pick_svc()
             for _ in range(rng.choice([1, L, L])):
-                arrive(1.0)
+                arrive(1.0, k0)
             if rng.random() < 0.6:
                 # … and the next ones between construction + P and first admission + P
                 d = q(P - x + rng.choice([0, 0, 1, x // 2, max(0, x - 1)]))
                 ops.append("adv %d" % d)
                 now += d
                 for _ in range(rng.choice([1, 1, L])):
-                    arrive(1.0)
+                    arrive(1.0, k0)
     nsteps = rng.randint(6, 32)
     episode_at = rng.randrange(nsteps) if rng.random() < 0.25 else -1
     dropsvc_at = rng.randrange(nsteps) if rng.random() < 0.12 else -1
@@ -143,12 +258,19 @@ def gen(rng, tier):
             gone = True
         elif r < 0.05 and not gone:
             busy(rng.choice([0, 1, P // 2, P, P + P // 2, 2 * P + 1, rng.randint(0, 3 * P)]))
+        elif r < 0.068 and not gone:
+            # the next poll_ready calls of the wrapped service answer pending / error / ready — while others sleep or run
+            ops.append("manual ready script=%s" % "".join(rng.choice("peepr") for _ in range(rng.randint(1, 3))))
+            if nxt < 40 and rng.random() < 0.7:
+                for _ in range(rng.randint(1, 3)):
+                    arrive(0.9)
         elif gone and r < 0.32 and rng.random() < 0.8:
             ops.append("poll %d" % rng.choice(arrived[-8:]) if arrived else "settle")
         elif r < 0.22 and nxt < 40:
             # a burst at one instant: L-1 / L / L+1 / more callers
             n = max(1, rng.choice([1, L - 1, L, L + 1, L + 2, 2 * L + 1]))
-            ids = [arrive() for _ in range(min(n, 7))]
+            k0 = pick_svc()
+            ids = [arrive(svc=k0) for _ in range(min(n, 7))]
             if rng.random() < 0.3:
                 order = ids[:]
                 rng.shuffle(order)
@@ -162,16 +284,19 @@ def gen(rng, tier):
         elif r < 0.88:
             fut = [m for m in marks if m >= now]
             if fut and rng.random() < 0.75:
-                step = 1 if not grid else GRID
-                d = max(0, rng.choice(fut) - now + rng.choice([-step, 0, 0, 0, step]))
+                d = max(0, rng.choice(fut) - now + rng.choice([-G, 0, 0, 0, G]))
             else:
                 d = rng.choice([0, 1, 2, P // 2, P - 1, P, P + 1, rng.randint(0, 2 * P)])
             d = q(d)
+            if long_left > 0 and rng.random() < (0.10 if huge else 0.003):
+                d = q(long_idle()) if huge else q(TWO32 + rng.choice([0, 1, P, 2 * P]))
+                long_left -= 0 if huge else 1
             ops.append("adv %d" % d)
             now += d
         else:
             ops.append("settle")
-    # C15: quiesce, stay idle for two full periods (exactly, or a little more), then a burst of L (+1) calls
+    # C15: quiesce, stay idle for two full periods (exactly, or a little more — or for a very long time), then a burst
+    # of L (+1) calls at one service
     if rng.random() < 0.75 and not gone:
         ops.append("settle")
         ops.append("dropall")
@@ -179,14 +304,17 @@ def gen(rng, tier):
             ops.append("manual busy ms=0")
         d = 2 * P + q(rng.choice([0, 0, 0, 1, P // 2, P, 3 * P]))
         if rng.random() < 0.15:
-            d = q(max(0, 2 * P - (GRID if grid else 1)))     # just short of two periods: no promise
+            d = q(max(0, 2 * P - G))     # just short of two periods: no promise
+        if huge and long_left > 0 and rng.random() < 0.8:
+            d = q(long_idle())
         ops.append("adv %d" % d)
         now += d
         n = L + (1 if rng.random() < 0.5 else 0)
         ids = []
+        k0 = rng.choice(sorted(built)) if rng.random() < 0.8 else pick_svc()
         for i in range(n):
             c = 100 + i
-            ops.append("arrive %d inner=%d:ok" % (c, q(rng.choice([0, 0, 7, P]))))
+            ops.append("arrive %d inner=%d:ok%s" % (c, 0 if us else q(rng.choice([0, 0, 7, P])), how_called(k0)))
             ids.append(c)
             if rng.random() < 0.3:
                 ops.append("poll %d" % c)
@@ -205,12 +333,57 @@ def gen(rng, tier):
 # ------------------------------------------------------------------------------------------ monitors
 
 def _cfg(case):
+    """effective configuration (kind, limit, period, timeout — in ticks) of the case header, from the crate's documentation:
+    per_second(n) = n per 1 s, 100 ms timeout; per_minute(n) = n per 60 s, 1 s timeout; burst(r, b) = r + b per 1 s,
+    100 ms timeout, sliding counter; builder defaults = 50 per 1 s, 100 ms timeout, fixed window; a builder method
+    called after a preset replaces that field"""
     k = kvs(case["header"])
-    return k.get("kind", "fixed"), int(k.get("limit", "1")), int(k.get("period", "1000")), int(k.get("timeout", "0"))
+    u = 1000 if k.get("tick") == "us" else 1
+    via = k.get("via", "builder")
+    if via == "per_second":
+        base = ("fixed", int(k.get("n", "1")), 1000 * u, 100 * u)
+    elif via == "per_minute":
+        base = ("fixed", int(k.get("n", "1")), 60000 * u, 1000 * u)
+    elif via == "burst":
+        base = ("counter", int(k.get("rate", "1")) + int(k.get("burst", "0")), 1000 * u, 100 * u)
+    elif via == "default":
+        base = ("fixed", 50, 1000 * u, 100 * u)
+    else:
+        base = ("fixed", 1, 1000, 0)
+    return (k.get("kind", base[0]), int(k.get("limit", base[1])), int(k.get("period", base[2])), int(k.get("timeout", base[3])))
 
 
-def cut_exists(a, L, P):
-    """Decides the property's existential exactly: can the time axis (from t = 0, where the limiter is created)
+def _services(case):
+    """caller -> service, service -> the instant it was built (service 0: together with the layer, at 0; service k:
+    at its first `arrive … svc=k`, unless every handle had been dropped before)"""
+    svc_of, built = {}, {0: 0}
+    now, gone = 0, False
+    for o in case["ops"]:
+        w = o.split()
+        if not w:
+            continue
+        if w[0] == "adv":
+            now += int(w[1])
+        elif w[:2] == ["manual", "dropsvc"]:
+            gone = True
+        elif w[0] == "arrive" and w[1] not in svc_of:
+            k = 0
+            for x in w[2:]:
+                if x.startswith("svc="):
+                    k = int(x[4:])
+            svc_of[w[1]] = k
+            if not gone:
+                built.setdefault(k, now)
+    return svc_of, built
+
+
+def _tl(lines, meta):
+    """timeline without the listener notes (`#ev …`, `listen=1`)"""
+    return _timeline(lines, [m for m in meta if not m[1].startswith("#ev")])
+
+
+def cut_exists(a, L, P, t0=0):
+    """Decides the property's existential exactly: can the time axis (from t0, where the limiter is created)
     be cut at integer instants into consecutive windows [b_k, b_k+1), each at least P long, each holding at most
     L of the admission instants a[0] <= a[1] <= ... ?  dp[j] = earliest start of a window whose first admission
     is a[j]."""
@@ -219,7 +392,7 @@ def cut_exists(a, L, P):
         return True
     INF = float("inf")
     dp = [INF] * n
-    dp[0] = 0
+    dp[0] = t0
     for j in range(1, n):
         best = INF
         for i in range(max(0, j - L), j):
@@ -232,12 +405,13 @@ def cut_exists(a, L, P):
     return any(dp[i] != INF for i in range(max(0, n - L), n))
 
 
-def admissions(lines):
-    a = []
+def admissions(lines, svc_of=None):
+    """service -> admission instants (instants of the calls of the wrapped service made for that service's callers)"""
+    a = {}
     for l in lines:
         t, w = tparse(l)
         if w and w[0] == "inner_call":
-            a.append(t)
+            a.setdefault((svc_of or {}).get(w[1], 0), []).append(t)
     return a
 
 
@@ -259,25 +433,39 @@ _META = {}   # id(implementation lines) -> meta lines; lets `transitions` (calle
 def mon_c02(case, lines, meta):
     _META[id(lines)] = meta
     kind, L, P, T = _cfg(case)
-    a = admissions(lines)
-    if a != sorted(a):
-        return "admission instants not in order: %s" % a
-    if kind == "log":
-        for i in range(len(a) - L):
-            if a[i + L] - a[i] < P:
-                return "sliding log: admissions %d..%d (%d+1 consecutive) at t=%s span %d < refresh_period=%d" % (
-                    i, i + L, L, a[i:i + L + 1], a[i + L] - a[i], P)
-        return None
-    if not cut_exists(a, L, P):
-        return "%s window: admission instants %s cannot be cut into consecutive windows >= %d ms with at most %d admissions each" % (
-            kind, a, P, L)
+    svc_of, built = _services(case)
+    for k, a in sorted(admissions(lines, svc_of).items()):
+        who = "" if k == 0 and len(built) == 1 else "service %d (built at t=%s): " % (k, built.get(k, 0))
+        if a != sorted(a):
+            return who + "admission instants not in order: %s" % a
+        if kind == "log":
+            for i in range(len(a) - L):
+                if a[i + L] - a[i] < P:
+                    return who + "sliding log: admissions %d..%d (%d+1 consecutive) at t=%s span %d < refresh_period=%d" % (
+                        i, i + L, L, a[i:i + L + 1], a[i + L] - a[i], P)
+            continue
+        if not cut_exists(a, L, P, built.get(k, 0)):
+            return who + "%s window: admission instants %s cannot be cut into consecutive windows >= %d ms with at most %d admissions each" % (
+                kind, a, P, L)
     return None
 
 
 def mon_c15(case, lines, meta):
+    """every service built from the layer is a rate limiter of its own: the clauses are checked service by service, on
+    the events of that service's callers"""
     _META[id(lines)] = meta
+    svc_of, built = _services(case)
+    ev = _tl(lines, meta)
+    for k in sorted(built):
+        mine = [e for e in ev if len(e[1]) > 1 and svc_of.get(e[1][1], 0) == k]
+        msg = _c15_one(case, mine, built[k])
+        if msg:
+            return msg if k == 0 and len(built) == 1 else "service %d (built at t=%s): %s" % (k, built[k], msg)
+    return None
+
+
+def _c15_one(case, ev, t0):
     kind, L, P, T = _cfg(case)
-    ev = _timeline(lines, meta)
     fp = {}            # caller -> first-poll instant (arrival)
     admitted = {}      # caller -> admission instant
     ncalls = {}
@@ -285,6 +473,7 @@ def mon_c15(case, lines, meta):
     adm_times = []     # all admission instants so far
     tries = []         # instants of every try_acquire so far (first polls and post-sleep retries)
     promise = 0        # number of coming try_acquires that must be granted (idle-refill promise)
+    idle_from = t0     # the try_acquire (or construction) the idle stretch of the current promise began with
     horizon = {"log": P, "fixed": P, "counter": 3 * P}[kind]
     i = 0
     n = len(ev)
@@ -299,15 +488,15 @@ def mon_c15(case, lines, meta):
         if k == "meta" and w[0] == "#fp":
             c = w[1]
             fp[c] = t
-            last = tries[-1] if tries else 0
+            last = tries[-1] if tries else t0
             if P > 0 and t - last >= 2 * P:
-                promise = L
+                promise, idle_from = L, last
             tries.append(t)
             recent = sum(1 for x in adm_times if x > t - horizon)
             if promise > 0:
                 promise -= 1
                 if not nxt_is_call(c):
-                    return "caller %s arrived at t=%s among the first %d calls after the limiter had been idle for two periods (previous try_acquire at t=%s, period %d) but was not admitted at once" % (c, t, L, last, P)
+                    return "caller %s arrived at t=%s among the first %d calls after the limiter had been idle for two periods (previous try_acquire at t=%s, period %d) but was not admitted at once" % (c, t, L, idle_from, P)
             elif recent < L and not nxt_is_call(c):
                 return "caller %s arrived at t=%s with only %d admissions in the preceding %d ms (limit %d) but was not admitted at once" % (c, t, recent, horizon, L)
             if not nxt_is_call(c) and not nxt_is_rej(c) and T == 0:
@@ -331,9 +520,9 @@ def mon_c15(case, lines, meta):
                 if due is not None and min(wk) > due:
                     return "caller %s arrived at t=%s, timeout %d: not decidable before t=%s (first wake-up), later than arrival+timeout (first visited instant %s)" % (c, fp[c], T, min(wk), due)
                 tnow = nxt[2]
-                lastt = tries[-1] if tries else 0
+                lastt = tries[-1] if tries else t0
                 if P > 0 and tnow - lastt >= 2 * P:
-                    promise = L
+                    promise, idle_from = L, lastt
                 tries.append(tnow)
                 if promise > 0:
                     promise -= 1
@@ -345,7 +534,7 @@ def mon_c15(case, lines, meta):
             if ncalls[c] > 1:
                 return "caller %s reached the inner service twice" % c
             if c in rejected:
-                return "caller %s reached the inner service after being rejected" % c
+                return "caller %s reached the inner service after being rejected / turned away" % c
             admitted[c] = t
             adm_times.append(t)
             if c not in fp:
@@ -365,7 +554,11 @@ def mon_c15(case, lines, meta):
                 woken = prev is not None and prev[0] == "meta" and prev[1][:2] == ["#wake", c]
                 if not at_once and not woken:
                     return "caller %s rejected at t=%s by a poll that was neither its first nor after a wake-up" % (c, t)
-            elif w[2] != "notready":
+            elif w[2] == "notready":
+                if c in fp or ncalls.get(c, 0) > 0:
+                    return "caller %s was turned away because the wrapped service was not ready, yet it had been polled / had reached the wrapped service" % c
+                rejected[c] = t         # it never had a call future: it must not reach the wrapped service later either
+            else:
                 if ncalls.get(c, 0) != 1:
                     return "caller %s got %s after %d inner calls (must be exactly one)" % (c, w[2], ncalls.get(c, 0))
         i += 1
@@ -394,8 +587,29 @@ def transitions(case, lines, meta=None):
                 tags.append(kind + ":rejected")
             else:
                 tags.append("result-" + w[2].split(":")[0])
+    hk = kvs(case["header"])
+    if hk.get("via"):
+        tags.append("via:" + hk["via"])
+    if hk.get("listen") == "1":
+        tags.append("listeners")
+    svc_of, built = _services(case)
+    if len(built) > 1:
+        tags.append("second-service")
+    now = 0
+    for o in case["ops"]:
+        w = o.split()
+        if w and w[0] == "adv":
+            now += int(w[1])
+            if int(w[1]) >= 2 ** 31:
+                tags.append("idle:huge")
+        elif w and w[0] == "arrive" and any(x.startswith("h=") for x in w[2:]):
+            tags.append("handle:reused")
+    for l in lines:
+        t, w = tparse(l)
+        if w and w[0] == "ready_err":
+            tags.append("ready:error")
     if meta:
-        ev = _timeline(lines, meta)
+        ev = _tl(lines, meta)
         fp = {}
         for i, (k, w, t) in enumerate(ev):
             if k == "meta" and w and w[0] == "#fp":
@@ -431,7 +645,8 @@ COMMON = {
     "transitions": transitions,
     "nontrivial": nontrivial,
     "all_transitions": ["inner_call", "dropped-running", "result-ok", "result-err", "result-panic"]
-                       + ["dropped-before-admission", "result-notready"]
+                       + ["dropped-before-admission", "result-notready", "second-service", "handle:reused", "ready:error", "idle:huge",
+                          "listeners", "via:per_second", "via:per_minute", "via:burst", "via:default"]
                        + [k + ":" + x for k in KINDS for x in ("rejected", "admit-at-once", "reject-at-once", "sleep",
                                                                  "admit-after-wait", "reject-after-wait")],
     "model_modules": ["TR.Model.RateLimiter", "TR.Lemmas.RateLimiter", "TR.Mutants.AcquireWaitIsOk"],
@@ -444,6 +659,12 @@ COMMON = {
             "busy and fresh callers retry afterwards); `manual dropsvc` (every limiter handle dropped) after a batch of calls whose futures have "
             "not been polled yet, and at random points; in 35 % of the cases the first request comes part-way into the first period and the next ones between "
             "construction + P and first admission + P; sliding counter on a 125 ms grid with periods 1/2/4 s; "
+            "construction through the presets per_second / per_minute / burst and the builder's defaults (24 % of the cases; half of them customised "
+            "afterwards), .name(), the three listeners registered (30 %); several services built from the one layer value or from a clone of it "
+            "(25 %: bursts go to one service, every service has its own windows counted from the instant it is built), calls on the service value "
+            "itself / on kept clones / on throw-away clones (40 %); scripted poll_ready answers of the wrapped service (pending / error) while others "
+            "sleep or run; very long idle stretches (12 %: period 1-3 ticks, advances of k*2^32 periods and neighbours, 2^31 periods, 2^32 ticks, "
+            "measured from the last try_acquire; a quarter of them with 1 tick = 1 us and timeout 0), the instants 'window end minus timeout'; "
             "distinct = distinct implementation event log; non-trivial = a rate-limited rejection, a cancelled running call, or >= 3 admissions",
     "trusted": ["tokio sleep semantics (fires at the first visited instant >= deadline, deadline rounded up to 1 ms) — observed through the "
                 "@woke choice and constrained by the model, not proved",
@@ -452,7 +673,10 @@ COMMON = {
                     "time in whole milliseconds; the sliding counter's float wait estimate est satisfies 0 < est <= time left in the bucket "
                     "(taken as an observed choice, checked against that range)",
                     "f64 evaluation of the sliding counter's weighted count is exact on the generated grid; off the grid it is not verified",
-                    "limit_for_period >= 1, refresh_period >= 1 ms; usize modelled as unbounded Nat"],
+                    "limit_for_period >= 1, refresh_period >= 1 ms; usize modelled as unbounded Nat",
+                    "very long idle stretches use periods of 1-3 ticks (sliding counter: 1 or 2, so that the elapsed ratio is 0 or exactly 1/2); "
+                    "instants up to about 1.3e10 ticks (u64 nanoseconds in the harness, unbounded Nat in the model)",
+                    "SharedRateLimiter::available_permits() is pub(crate) and unused by the crate: not reachable through the public API, not compared"],
 }
 
 LEVEL_NOTE = ("Trusted: Lean kernel; the transcription of limiter.rs / lib.rs in TR.Model.RateLimiter (validated by the sampled correspondence "
@@ -465,7 +689,10 @@ SPECS = {
                            "timeout, period >= 1 and every operation sequence, the instants of the inner calls are exactly the limiter's grants; for "
                            "the fixed window and the sliding counter they are cut by the limiter's own window starts into consecutive windows "
                            ">= refresh_period apart with at most limit grants each; for the sliding log any limit+1 consecutive grants span >= "
-                           "refresh_period. The model is tied to the real RateLimiterLayer by line-for-line agreement of event logs.",
+                           "refresh_period. {services_independent, each_service_is_one_limiter, each_service_windows, each_service_log_span}: every "
+                           "service built from one layer value is a limiter of its own (an operation on one leaves the others untouched; each satisfies all "
+                           "of the above); presets_meet_hypotheses / per_second_windows / burst_windows: the documented preset configurations; "
+                           "readiness_error_takes_no_permit. The model is tied to the real RateLimiterLayer by line-for-line agreement of event logs.",
                 level_note=LEVEL_NOTE),
     "C15": dict(COMMON, module="TR.Props.C15", monitors=[("c15-decision-and-routing", mon_c15), ("c15-later-admission-takes-a-permit", mon_c02),
                                                           ("c15-called-only-when-ready", mon_ready)],
@@ -474,6 +701,7 @@ SPECS = {
                            "caller's timer is due by arrival + timeout and the poll after it decides; a first poll with room reaches the inner "
                            "service in that step; an admission after waiting is a grant at a later instant (fixed: in a window begun after the "
                            "arrival); rejected callers never reach the inner service, admitted ones exactly once; after two idle periods the next "
-                           "limit try_acquires are all granted; dropping a waiter changes nothing in the limiter.",
+                           "limit try_acquires are all granted (no upper bound on the idle stretch: instants are unbounded naturals); dropping a waiter "
+                           "changes nothing in the limiter; each_service_idle_refills / each_service_routes: the same per service of a fleet.",
                 level_note=LEVEL_NOTE),
 }
